@@ -8,6 +8,7 @@
 import ClientGoVerif.Proofs.MvccLocks
 import ClientGoVerif.Proofs.MvccTemporal
 import ClientGoVerif.Proofs.MvccSI
+import ClientGoVerif.Proofs.AggLock
 namespace CGV.Props.C06
 open CGV CGV.Mvcc
 
@@ -56,3 +57,105 @@ theorem commit_or_rollback_step_releases {e e' : Entry} {lab : KLabel} {T : Nat}
     (hl : (∃ C, lab = .commit T C) ∨ lab = .rollback T) : e'.lock = none := h.release hl
 
 end CGV.Props.C06
+
+/-
+  Client side (Model/AggLock.lean, Proofs/AggLock.lean): the lock bookkeeping of a pessimistic KVTxn — lockKeys,
+  aggressive (fair) locking start / retry / cancel / done, Rollback, Commit — as a state machine whose inputs include the
+  store's answers.  `store` is the set of keys on which the store holds the transaction's pessimistic lock (it follows the
+  requests: no request is lost), `tracked` = currentLockedKeys ∪ lastRetryUnnecessaryLocks ∪ membuffer keys flagged locked.
+  The statements quantify over ALL op sequences; `Admissible` evaluates, step by step along the run, the store's contract
+  for the answers (`wfLock`) and the absence of the excluded situations (`excludedLock`, `endOk`).  The model is tied to
+  the real KVTxn by checks/c06.py (harness/c06agg, cgv-c06agg).
+-/
+namespace CGV.Props.C06.Bookkeeping
+open CGV.AggLock
+
+/-- no leak between ops: every lock the store holds is one the client still tracks and will release.
+    PARTIAL: `Admissible` excludes (1) a one-key LockKeys call inside aggressive locking for a key of
+    lastRetryUnnecessaryLocks that is answered write conflict / key exists, or answered successfully with
+    LockOnlyIfExists and "not found" (`excludedLock`), and (2) Commit / Rollback inside a stage that holds keys (`endOk`). -/
+theorem noleak_invariant_partial (ops : List Op) (h : Admissible init ops = true) :
+    ∀ k, k ∈ (run init ops).store → k ∈ tracked (run init ops) :=
+  (run_inv ops init init_inv h).sub
+
+/-- lockedCnt never under-counts the tracked keys, so the early exit of rollbackPessimisticLocks on `lockedCnt == 0`
+    skips nothing -/
+theorem lockedCnt_covers_partial (ops : List Op) (h : Admissible init ops = true) :
+    (((run init ops).current.length + (run init ops).lastRetry.length + (run init ops).flagged.length : Nat) : Int)
+      ≤ (run init ops).lockedCnt :=
+  (run_inv ops init init_inv h).cnt
+
+/-- once the transaction is over (Commit or Rollback, background rollbacks drained) the store holds no lock of it -/
+theorem ended_holds_nothing_partial (ops : List Op) (h : Admissible init ops = true)
+    (hc : (run init ops).closed = true) : (run init ops).store = [] :=
+  (run_inv ops init init_inv h).cls hc
+
+theorem rollback_releases_all_partial (ops : List Op) (h : Admissible init (ops ++ [.rollback]) = true) :
+    (run init (ops ++ [.rollback])).store = [] := by
+  refine (run_inv _ init init_inv h).cls ?_
+  rw [run_append]
+  exact step_rollback_closed _
+
+theorem commit_releases_all_partial (ops : List Op) (h : Admissible init (ops ++ [.commit]) = true) :
+    (run init (ops ++ [.commit])).store = [] := by
+  refine (run_inv _ init init_inv h).cls ?_
+  rw [run_append]
+  exact step_commit_closed _
+
+/-- the property op of the correspondence check (`chk-noleak`) never fails on an admissible run -/
+theorem chk_noleak_ok_partial (ops : List Op) (h : Admissible init ops = true) : leaked (run init ops) = [] :=
+  leaked_nil_of_inv (run_inv ops init init_inv h)
+
+/-- the exclusion of lock calls is EXACT, for every state: whenever a call is in the excluded situation (`relock`, `excludedLock`),
+    its request is really sent and the store still holds the previous attempt's lock on the key, which is in neither
+    currentLockedKeys nor flagged, then right after the call the key is leaked (held by the store, tracked nowhere) -/
+theorem excluded_lock_is_exact (s : State) (i : LockIn) (k : Key) (hcl : s.closed = false) (hwf : wfLock i = true)
+    (hr : relock s i = some k) (hx : excludedLock s i = true) (hs0 : s.req = []) (hreq : (lockStep s i).req ≠ [])
+    (hst : k ∈ s.store) (hc : k ∉ keysOf s.current) (hf : k ∉ fkeys s.flagged) : k ∈ leaked (lockStep s i) :=
+  excluded_lock_leaks hcl hwf hr hx hs0 hreq hst hc hf
+
+/-- the FULL statement (only the store's contract assumed) is false for the code as it is: the known leak -/
+theorem noleak_full_false : ¬ ∀ ops : List Op, WellFormed ops = true → leaked (run init ops) = [] := by
+  intro h
+  have := h witnessLoie (by decide)
+  revert this
+  decide
+
+theorem ended_holds_nothing_full_false :
+    ¬ ∀ ops : List Op, WellFormed ops = true → (run init ops).closed = true → (run init ops).store = [] := by
+  intro h
+  have := h (witnessLoie ++ [.commit]) (by decide) (by decide)
+  revert this
+  decide
+
+/-- each excluded situation leaks on its own: lock-only-if-exists "not found" on a key of the previous attempt … -/
+theorem excluded_loie_leaks : WellFormed witnessLoie = true ∧ leaked (run init witnessLoie) = [1] ∧
+    (run init (witnessLoie ++ [.rollback])).store = [1] := by decide
+
+/-- … key exists (or write conflict) on the re-request of a key of the previous attempt … -/
+theorem excluded_key_exists_leaks : WellFormed witnessKeyExists = true ∧ leaked (run init witnessKeyExists) = [1] ∧
+    (run init (witnessKeyExists ++ [.rollback])).store = [1] := by decide
+
+/-- … and ending the transaction inside a stage that holds a key -/
+theorem excluded_pending_leaks : WellFormed witnessPending = true ∧ (run init witnessPending).closed = true ∧
+    (run init witnessPending).store = [1] := by decide
+
+-- non-vacuity: an admissible run in which all three sets and the store are non-empty at some point, and its ends
+example : Admissible init sampleRun = true ∧ (run init sampleRun).store ≠ [] ∧ (run init sampleRun).flagged.length = 4 := by decide
+example : Admissible init (sampleRun.take 7) = true ∧ ((run init (sampleRun.take 7)).current.length,
+    (run init (sampleRun.take 7)).lastRetry.length, (run init (sampleRun.take 7)).lockedCnt) = (2, 1, 4) := by decide
+example : Admissible init (sampleRun ++ [.rollback]) = true ∧ (run init sampleRun).store.length = 4 := by decide
+example : Admissible init (sampleRun ++ [.commit]) = true ∧ (run init (sampleRun ++ [.commit])).cm.length = 4 := by decide
+example : Admissible init (sampleRun ++ [.rollback]) = true ∧ (run init (sampleRun ++ [.rollback])).closed = true := by decide
+-- `excluded_lock_is_exact` is not vacuous: the state before the excluded step of the known leak satisfies its hypotheses
+example : let s := clearOut (run init (witnessLoie.take 3))
+    s.closed = false ∧ relock s { keys := [1], o := { rv := true, loie := true }, fu := 11, ans := [{ key := 1, exist := false }] } = some 1 ∧
+    excludedLock s { keys := [1], o := { rv := true, loie := true }, fu := 11, ans := [{ key := 1, exist := false }] } = true ∧
+    (lockStep s { keys := [1], o := { rv := true, loie := true }, fu := 11, ans := [{ key := 1, exist := false }] }).req = [1] ∧
+    s.store = [1] ∧ s.current = [] ∧ s.flagged = [] := by decide
+-- the witnesses are outside the fragment exactly at the excluded step
+example : Admissible init (witnessLoie.take 3) = true ∧ Admissible init (witnessLoie.take 4) = false := by decide
+example : Admissible init (witnessKeyExists.take 4) = true ∧ Admissible init (witnessKeyExists.take 5) = false := by decide
+example : Admissible init (witnessPending.take 2) = true ∧ Admissible init witnessPending = false := by decide
+
+end CGV.Props.C06.Bookkeeping
